@@ -287,8 +287,8 @@ def c01_grid(srv, mtu, thorough, unknown=True):
     hs = [0, 1, mx, mx + 1, 0xffff]
     for special in (srv.cccds[:1], srv.values[:1], srv.values[-1:]):
         hs += [h for h in special if h not in hs]
-    seconds = [0, 0xffff] if not thorough else [0, 1, 2, 3, 9, 0xffff]
-    lengths_all = list(range(1, mtu + 1)) if (thorough or mtu <= 23) else list(range(1, 26)) + [mtu - 2, mtu - 1, mtu]
+    seconds = [0, 0xffff] if not thorough else [0, 2, 9, 0xffff]
+    lengths_all = list(range(1, mtu + 1)) if mtu <= 23 else list(range(1, 26)) + [mtu - 2, mtu - 1, mtu]
     out = []
     for op in range(256):
         if op in KNOWN_OPS:
@@ -305,7 +305,7 @@ def c01_grid(srv, mtu, thorough, unknown=True):
                         if pdu not in out[-40:]:
                             out.append(pdu)
         elif unknown:
-            for n in ([1, 2, 3, 5, mtu] if not thorough else lengths_all):
+            for n in ([1, 2, 3, 5, mtu] if not thorough else [1, 2, 3, 4, 5, 6, mtu - 1, mtu]):
                 out.append([op] + [0x03, 0x00, 0x00, 0x00][:n - 1] + [0x41] * max(0, n - 5))
     return out
 
@@ -332,13 +332,11 @@ def run_c01(c):
                       "memory safety is observed with ASan/UBSan on exact-size heap buffers (input ends at the end of its "
                       "allocation, output buffer has exactly the announced size)"]
     mine = [_attsec.c05_decl(_attsec.C05_FIXED[0], "c01_wq_cccd_enc"), _attsec.c10_decl("c01_prio", [2], [2], [3, 2])]
-    corners = _gatt.corner_decls()
-    if c.quick:
-        keep = ("corner_write_queue", "corner_fixed_gaps")
-        corners = [d for d in corners if d["name"] in keep]
-    sampled = [] if c.quick else _gatt.sampled_decls(c, 6)
+    keep = (("corner_write_queue", "corner_fixed_gaps") if c.quick else
+            ("corner_write_queue", "corner_fixed_gaps", "corner_minimal", "corner_cccd5", "corner_encryption", "corner_uuid128"))
+    corners = [d for d in _gatt.corner_decls() if d["name"] in keep]
     only = os.environ.get("VERIF_GATT_ONLY")
-    decls = [d for d in mine + corners + sampled if not only or only in d["name"]]
+    decls = [d for d in mine + corners if not only or only in d["name"]]
     servers = _attsec.build(c, _attsec.prepare(c, decls))
     c.extra["declarations"] = [_gatt.decl_summary(s) for s in servers]
     parallel(lambda s: _attsec.model_check(c, s, "C01", 1, 0, ["RefConforms", "C01Framed"], nc=1), servers[:2])
